@@ -187,6 +187,26 @@ class LiftGen:
             rid = fresh()
             insts.append(Inst(g.opv["ConstantTrue"], "ConstantTrue", tbool, rid, []))
             consts.append(rid); cexp.append("Bool{0=1}")
+        # equal values declared more than once: every declaration is a constant of its own
+        for _ in range(rnd.randrange(0, 3)):
+            which = rnd.randrange(4)
+            if which == 0:
+                const(tuint, insts[-1].ops[0].value if insts[-1].name == "Constant" and insts[-1].rtype == tuint else 7, None)
+                cexp[-1] = "UInt{0=%d}" % insts[-1].ops[0].value
+                const(tuint, insts[-1].ops[0].value, "UInt{0=%d}" % insts[-1].ops[0].value)
+            elif which == 1:
+                for _ in range(2):
+                    rid = fresh()
+                    insts.append(Inst(g.opv["ConstantTrue"], "ConstantTrue", tbool, rid, []))
+                    consts.append(rid); cexp.append("Bool{0=1}")
+            elif which == 2:
+                for t in (tint, tfloat):
+                    rid = fresh()
+                    insts.append(Inst(g.opv["ConstantNull"], "ConstantNull", t, rid, []))
+                    consts.append(rid); cexp.append("Null{}")
+            else:
+                const(tint, 5, "Int{0=5}")
+                const(tint, 5, "Int{0=5}")
         if rnd.random() < 0.7:
             ty("TypeArray", [Op("w", idr, rnd.choice(types)), Op("w", idr, clen)], "arr")
         if rnd.random() < 0.7:
